@@ -52,7 +52,14 @@ def make_archive(kind, eps=None):
     from artap.operators import ParetoDominance, EpsilonDominance
     if kind == "pareto":
         return Archive(dominance=ParetoDominance())
+    if kind == "default":
+        return Archive()        # the default comparator object is shared by every archive of the process
+    if kind == "shared_pareto":
+        return Archive(dominance=_SHARED.setdefault("p", ParetoDominance()))
     return Archive(dominance=EpsilonDominance(eps))
+
+
+_SHARED = {}
 
 
 def drive(ctx, kind, eps, seq, tag):
@@ -133,14 +140,16 @@ def run_case(ctx, name, params):
     if name == "history":
         r = ctx.rng("h", params["seed"])
         m = r.randint(1, 4)
-        kind = r.choice(["pareto", "epsilon"])
+        kind = r.choice(["pareto", "epsilon", "epsilon", "default", "shared_pareto"])
         eps = None
+        if kind == "default":
+            eps = [0.1, 0.1]
         if kind == "epsilon":
             k = r.randint(1, m)
             eps = [r.choice([0.01, 0.1, 0.5, 1.0, 0.25, 2.0]) for _ in range(k)]
         length = r.randint(1, params["max_len"])
         seq = gen_history(r, length, m, kind)
-        if kind == "epsilon":
+        if kind in ("epsilon", "default"):
             ok = all(separated(a, b) for a, b in itertools.combinations(seq, 2))
             if not ok:
                 ctx.count("epsilon_history_unseparated_skipped")
